@@ -63,6 +63,10 @@ fn policy(s: &str) -> Option<PolicySet> {
 }
 
 pub fn replay_case<K: Kern<D>, const D: usize>(tr: &mut Tracer, evs: &[Value]) {
+    let _ = replay_case_ret::<K, D>(tr, evs);
+}
+
+pub fn replay_case_ret<K: Kern<D>, const D: usize>(tr: &mut Tracer, evs: &[Value]) -> HashMap<u64, Dt<K, D>> {
     let mut objs: HashMap<u64, Dt<K, D>> = HashMap::new();
     // abstract vertex id -> uuid number (ids are re-created in the same order, so the new trace
     // uses the same small integers)
@@ -85,6 +89,20 @@ pub fn replay_case<K: Kern<D>, const D: usize>(tr: &mut Tracer, evs: &[Value]) {
         VIn { uuid: mk_uuid(1_000_000 + a["u"].as_u64().unwrap()), m, off, cls, data }
     };
     for e in evs {
+        if std::env::var_os("VERIF_REPLAY_INDEX").is_some() {
+            for (o, dt) in &objs {
+                let keys = dt.verif_spatial_index_keys();
+                let live: Vec<_> = dt.tds().vertex_keys().collect();
+                let missing: Vec<_> = match &keys {
+                    Some(ks) => live.iter().filter(|k| !ks.contains(k)).map(|k| tr.vkey_id(dt.tds(), *k)).collect(),
+                    None => vec![],
+                };
+                eprintln!("   live keys {:?}", live);
+                eprintln!("   index keys {:?}", keys);
+                eprintln!("before {:>10} obj {o}: index {} usable {:?} live {} missing-from-index {:?} count {}", e["ev"].as_str().unwrap_or(""),
+                    keys.as_ref().map_or("None".to_string(), |k| k.len().to_string()), dt.verif_spatial_index_usable(), live.len(), missing, dt.verif_insertion_count());
+            }
+        }
         let obj = e["obj"].as_u64().unwrap_or(0);
         tr.tag = e["tag"].as_str().unwrap_or("").to_string();
         match e["ev"].as_str().unwrap_or("") {
@@ -152,4 +170,5 @@ pub fn replay_case<K: Kern<D>, const D: usize>(tr: &mut Tracer, evs: &[Value]) {
             _ => {}
         }
     }
+    objs
 }
